@@ -114,10 +114,6 @@ func writeTargets(info *types.Info, n ast.Node, f func(e ast.Expr)) {
 			}
 		case *ast.IncDecStmt:
 			f(x.X)
-		case *ast.UnaryExpr:
-			if x.Op == token.AND {
-				f(x.X)
-			}
 		case *ast.SliceExpr:
 			if t := info.TypeOf(x.X); t != nil {
 				if _, ok := t.Underlying().(*types.Array); ok {
